@@ -17,6 +17,8 @@ def wq(variant, rank):
     return "quantized_bits(4,0,1,alpha='auto',scale_axis=0)"
   if variant == "auto_po2_bounds":
     return "quantized_bits(5,0,1,alpha='auto_po2',min_po2_exponent=-1,max_po2_exponent=0)"
+  if variant == "auto_po2_unsigned":
+    return "quantized_bits(5,1,1,keep_negative=False,alpha='auto_po2')"
   if variant == "po2":
     return "quantized_po2(4,max_value=2)"
   if variant == "ternary_auto":
